@@ -211,7 +211,96 @@ func c18Sequences() (int, []report.Viol) {
 			viols = append(viols, report.Viol{Property: "C18", Check: "C18/call-sequences", Rule: "fault-sequence", Text: fmt.Sprintf("a fault {%s, subscription=x, count 2} injected while a stream was already open: its later messages x,y,x,y,x,x were failed %v (stream error %v), want exactly the 2nd and 4th matching... [false false true false true false]; %d faults still listed", op, failedList(res), err, left), Trace: []string{op, "injected mid-stream"}})
 		}
 	}
+	// OVERLAPPING calls: the only point at which two requests on one thread of control
+	// can interleave inside the interceptor is between "parameters collected" and
+	// "parameters checked".  A request wrapper runs a complete second call right
+	// there (after Range has walked its fields).  Every (fault built from a field of
+	// X or Y) x (outer X, nested Y), before and after a fault has FIRED once on
+	// this thread (the pooled parameter map then went through the error path): each
+	// call is judged on its own parameters, and the count drops by the failures.
+	for _, warm := range []bool{false, true} {
+		for _, x := range entries {
+			for _, y := range entries {
+				for _, src := range []c18Entry{x, y} {
+					for field, val := range stringFields(src.msg) {
+						for _, count := range []int64{1, 2} {
+							set := faults.NewSet("verif")
+							if warm {
+								// a fault fires once on a unary call (and is gone)
+								set.Add(faults.Description{Operation: "Publish", Parameters: map[string]string{"topic": "projects/p/topics/warm"}, Count: 1, OnFault: func(faults.Description, faults.Parameters) error { return errC18 }})
+								w := c18Entry{"unary", pubM + "Publish", &pubsubpb.PublishRequest{Topic: "projects/p/topics/warm"}}
+								if failed, err := w.run(set); err != nil || !failed {
+									viols = append(viols, report.Viol{Property: "C18", Check: "C18/overlapping-calls", Rule: "fault-sequence", Text: fmt.Sprintf("warm-up fault did not fire: %v %v", failed, err), Trace: []string{"warm"}})
+									continue
+								}
+							}
+							// the fault is for the operation of whichever call the field came from
+							set.Add(faults.Description{Operation: src.op(), Parameters: map[string]string{field: val}, Count: count, OnFault: func(faults.Description, faults.Parameters) error { return errC18 }})
+							matches := func(e c18Entry) bool {
+								return e.op() == src.op() && hasField(e.msg, field) && stringFields(e.msg)[field] == val
+							}
+							var yFailed bool
+							var yErr error
+							outer := x
+							outer.msg = hookedProto{Message: x.msg, after: func() { yFailed, yErr = y.run(set) }}
+							xFailed, xErr := outer.run(set)
+							n++
+							// Y runs (and takes its injection) first
+							left := count
+							wantY := matches(y) && left > 0
+							if wantY {
+								left--
+							}
+							wantX := matches(x) && left > 0
+							if wantX {
+								left--
+							}
+							if xErr != nil || yErr != nil || xFailed != wantX || yFailed != wantY {
+								viols = append(viols, report.Viol{Property: "C18", Check: "C18/overlapping-calls", Rule: "fault-sequence", Text: fmt.Sprintf("fault {%s, %s=%q, count %d}%s; call X = %s %v with call Y = %s %v running between X's parameter collection and X's check: X failed=%v (want %v), Y failed=%v (want %v), errors %v %v", src.op(), field, val, count, map[bool]string{true: " after another fault fired once", false: ""}[warm], x.op(), x.msg, y.op(), y.msg, xFailed, wantX, yFailed, wantY, xErr, yErr), Trace: []string{x.op() + " " + fmt.Sprint(x.msg), y.op() + " " + fmt.Sprint(y.msg), field + "=" + val, fmt.Sprint(warm)}})
+								continue
+							}
+							remaining := int64(0)
+							for _, l := range set.Current() {
+								for _, d := range l {
+									remaining += d.Count
+								}
+							}
+							if remaining != left {
+								viols = append(viols, report.Viol{Property: "C18", Check: "C18/overlapping-calls", Rule: "fault-sequence", Text: fmt.Sprintf("overlapping calls %s / %s with fault {%s, %s=%q, count %d}: %d injections remain listed, want %d", x.op(), y.op(), src.op(), field, val, count, remaining, left), Trace: []string{x.op(), y.op(), field, fmt.Sprint(warm)}})
+							}
+						}
+					}
+				}
+			}
+		}
+	}
+	if len(viols) > 30 {
+		viols = viols[:30]
+	}
 	return n, viols
+}
+
+// hookedProto wraps a request so that a callback runs right after the interceptor
+// has walked its fields (Range), i.e. between parameter collection and check.
+type hookedProto struct {
+	proto.Message
+	after func()
+}
+
+func (h hookedProto) ProtoReflect() protoreflect.Message {
+	return hookedRefl{h.Message.ProtoReflect(), h.after}
+}
+
+type hookedRefl struct {
+	protoreflect.Message
+	after func()
+}
+
+func (h hookedRefl) Range(f func(protoreflect.FieldDescriptor, protoreflect.Value) bool) {
+	h.Message.Range(f)
+	if h.after != nil {
+		h.after()
+	}
 }
 
 func failedList(res []error) []bool {
